@@ -47,6 +47,7 @@ PIN_SPEC = {   # computed from /repo/src
                        'URLMethodsMixin.current_route_path', '_join_elements', '_join_quoted_elements'],
     'pyramid/encode.py': ['url_quote', 'quote_plus', 'urlencode'],
     'pyramid/traversal.py': ['quote_path_segment', '_join_path_tuple', 'ResourceURL', 'resource_path_tuple',
+                             'split_path_info', 'decode_path_info',
                              '_resource_path_list'],
     'pyramid/urldispatch.py': ['_compile_route', 'Route', 'RoutesMapper.get_route'],
     'pyramid/config/views.py': ['StaticURLInfo.generate', 'StaticURLInfo.add'],
@@ -272,10 +273,45 @@ def gen_route_case(rng, ipv6=False):
             'elements': gen_elements(rng), 'ov': gen_ov(rng), 'kw': gen_kw_for(rng, pat), 'warm': []}
 
 
+def _wsgi(s):
+    return s.encode('utf-8', 'surrogatepass').decode('latin-1')
+
+
+def gen_vroot(rng, names):
+    """X-Vhm-Root header (WSGI latin-1 text): a prefix of the resource's path, a near miss, or junk"""
+    strs = [n[1] for n in names if n[0] == 's']
+    r = rng.random()
+    if r < 0.55 and strs and len(strs) == len(names):
+        k = rng.choice(range(1, len(strs) + 1))
+        segs = [x for x in strs[:k]]
+        if all(x and x not in ('.', '..') and '/' not in x for x in segs):
+            sep = rng.choice(['/', '/', '//', '/./'])
+            return _wsgi('/' + sep.join(segs) + rng.choice(['', '/', '/x/..']))
+    if r < 0.75:
+        return _wsgi('/' + '/'.join(gen_text(rng, 3, 0.3) or 'v' for _ in range(rng.choice([1, 2]))))
+    if r < 0.85:
+        return rng.choice(['/', '', '/..', '/.'])
+    return rng.choice(['/\xff', '/a\xc3', '/\xe9'])        # not UTF-8
+
+
 def gen_resource_case(rng):
-    names = [['s', gen_text(rng, 4, 0.35)] if rng.random() < 0.9 else gen_pval(rng) for _ in range(rng.choice([0, 1, 1, 2, 3]))]
-    return {'kind': 'gen', 'helper': 'resource', 'env': gen_env(rng), 'names': names,
-            'elements': gen_elements(rng), 'ov': gen_ov(rng), 'warm': []}
+    names = [['s', gen_text(rng, 4, 0.35) if rng.random() < 0.6 else gen_word(rng)] if rng.random() < 0.9 else gen_pval(rng)
+             for _ in range(rng.choice([0, 1, 1, 2, 3]))]
+    c = {'kind': 'gen', 'helper': 'resource', 'env': gen_env(rng), 'names': names,
+         'elements': gen_elements(rng), 'ov': gen_ov(rng), 'warm': [], 'vroot': None, 'rn': None, 'routes': []}
+    if rng.random() < 0.35:
+        c['vroot'] = gen_vroot(rng, names)
+    if rng.random() < 0.25:
+        star = rng.choice(['traverse', 'traverse', 'rest'])
+        pats = [rng.choice(['/site/*', '/*', 'r{id}/x*', '/{lang}/*']) + star, gen_pattern(rng)]
+        c['routes'] = [['rr', pats[0]], ['other', pats[1]]]
+        pat = parse_pattern(pats[0])
+        rem = star if rng.random() < 0.85 else rng.choice(['traverse', 'nothere'])
+        kw = [[n, gen_kwval(rng)] for n, _l in pat['holes'] if rng.random() < 0.9]
+        c['rn'] = {'route_name': 'rr' if rng.random() < 0.95 else 'nosuch', 'rem': rem,
+                   'rem_given': rem != 'traverse' or rng.random() < 0.5,
+                   'kw': kw if (kw or rng.random() < 0.5) else None}
+    return c
 
 
 EXT_NAMES = ['https://cdn.example.com/assets/', 'http://static.example.org', '//cdn.example.com/s', 'https://cdn.example.com:8443/a/b/',
@@ -356,6 +392,18 @@ def gen_dec_case(rng):
     return {'kind': 'dec', 'url': ''.join(rng.choice(URL_PIECES) for _ in range(n))}
 
 
+JOIN_BASES = ['https://cdn.example.com/assets/', 'http://h/a/b', 'http://h', '//h/x/', 'ftp://f.example/pub/', 's3://bucket/a/',
+              'http://h/a/b/?q=1', 'http://h/a;p/b/', '', 'mailto:x@y', 'http://h/a//b/', '/only/path/', 'http://h/a/b/#f']
+JOIN_REFS = ['a.css', 'd/e', '../x', './y', '/abs', '//other/z', 'theme:dark.css', 'http://evil/x', '?q=2', '#frag', '', 'a/../../../b',
+             'a//b', 'x;p=1', '..', '.', 'a/.', 'd/', '%41', 'HTTP://H2/p', 'a b', '\xe9', 'x?y#z', ';p', 'a/b;p/c']
+
+
+def gen_join_case(rng):
+    base = rng.choice(JOIN_BASES)
+    ref = rng.choice(JOIN_REFS) if rng.random() < 0.7 else ''.join(rng.choice(URL_PIECES) for _ in range(rng.choice([1, 2, 3])))
+    return {'kind': 'join', 'base': base, 'ref': ref}
+
+
 SAFES = ['', '/', "~!$&'()*+,;=:@", "~!$&'()*+,;=:@/", "/?:@!$&'()*+,;=", ' ', '%', 'ab']
 
 
@@ -392,8 +440,10 @@ def generate(rng, tier, n):
             yield gen_current_case(rng)
         elif r < 0.83:
             yield gen_typed_case(rng) if typed else gen_route_case(rng)
-        elif r < 0.95:
+        elif r < 0.92:
             yield gen_dec_case(rng)
+        elif r < 0.95:
+            yield gen_join_case(rng)
         else:
             yield gen_quote_case(rng)
 
@@ -524,6 +574,8 @@ def valid(case):
         k = case['kind']
         if k == 'dec':
             return isinstance(case['url'], str) and _no_surrogate(case['url'])
+        if k == 'join':
+            return isinstance(case['base'], str) and isinstance(case['ref'], str) and _no_surrogate(case['base'] + case['ref'])
         if k == 'quote':
             return isinstance(case['safe'], str) and all(ord(c) < 128 for c in case['safe']) and \
                 all(isinstance(b, int) and 0 <= b < 256 for b in case['bytes'])
@@ -560,7 +612,28 @@ def valid(case):
         if h == 'route':
             return isinstance(case['route_name'], str)
         if h == 'resource':
-            return all(_pval_ok(x) and x[0] in ('s', 'b', 'i') for x in case['names'])
+            if not all(_pval_ok(x) and x[0] in ('s', 'b', 'i') for x in case['names']):
+                return False
+            v = case.get('vroot')
+            if v is not None and not (isinstance(v, str) and all(ord(ch) < 256 for ch in v)):
+                return False
+            rn = case.get('rn')
+            rs = case.get('routes') or []
+            if len({r[0] for r in rs}) != len(rs):
+                return False
+            for n, p in rs:
+                if not n or not isinstance(p, str) or not _no_surrogate(p) or _external(p) or parse_pattern(p) is None:
+                    return False
+            if rn is not None:
+                if not (isinstance(rn['route_name'], str) and isinstance(rn['rem'], str) and rn['rem']
+                        and (rn['kw'] is None or _kw_ok(rn['kw'])) and (rn['rem_given'] or rn['rem'] == 'traverse')):
+                    return False
+                pat = dict((n, p) for n, p in rs).get(rn['route_name'])
+                if pat is not None and rn['rem'] in [h_[0] for h_ in parse_pattern(pat)['holes']]:
+                    return False      # str(tuple) would be quoted into the path: not modelled
+                if rn['kw'] is not None and rn['rem'] in [k for k, _v in rn['kw']]:
+                    pass
+            return True
         if h == 'static':
             return bool(case['statics']) and all(isinstance(a, str) and isinstance(b, str) and a and ':' in b and b[0] != '/'
                                                  and _no_surrogate(a + b) and _static_name_ok(a) for a, b in case['statics']) \
@@ -575,6 +648,30 @@ def valid(case):
         return False
     except Exception:
         return False
+
+
+def shrinks(case):
+    """shrink what surrounds the URL under test (overrides, elements, keywords, environment); the routes,
+    static registrations and asset path stay as generated so that a replay shows the input class it came from"""
+    from harness.common.main import generic_shrinks
+    if case.get('kind') != 'gen':
+        yield from generic_shrinks(case)
+        return
+    if case['helper'] == 'static' and len(case['statics']) > 1:
+        for i in range(len(case['statics'])):
+            yield dict(case, statics=case['statics'][:i] + case['statics'][i + 1:])
+    env = case['env']
+    if env['script_name']:
+        yield dict(case, env=dict(env, script_name=''))
+    if env['http_host'] is not None:
+        yield dict(case, env=dict(env, http_host=None))
+    for k in ('ov', 'kw', 'elements', 'warm', 'matchdict', 'get', 'names'):
+        if k in case:
+            for sv in generic_shrinks(case[k]):
+                yield dict(case, **{k: sv})
+    if case['helper'] in ('route', 'current') and len(case['routes']) > 1:
+        for i in range(len(case['routes'])):
+            yield dict(case, routes=case['routes'][:i] + case['routes'][i + 1:])
 
 
 # ------------------------------------------------------------ pattern parsing (oracle: urldispatch's regexes)
@@ -707,14 +804,19 @@ def to_wire(case):
         return [1, case['url']]
     if k == 'quote':
         return [2, case['safe'], bytes(case['bytes'])]
+    if k == 'join':
+        return [3, case['base'], case['ref']]
     h = case['helper']
     env, ov = _w_env(case['env']), _w_ov(case['ov'])
     if h == 'route':
         return [0, 0, env, _w_routes(case['routes']), case['route_name'], [_w_pval(x) for x in case['elements']], ov,
                 _w_kw(case['kw']), [[_w_pval(x) for x in w] for w in case['warm']]]
     if h == 'resource':
-        return [0, 1, env, [_w_pval(x) for x in case['names']], [_w_pval(x) for x in case['elements']], ov,
-                [[_w_pval(x) for x in w] for w in case['warm']]]
+        rn = case.get('rn')
+        return [0, 4, env, _w_routes(case.get('routes') or []), [_w_pval(x) for x in case['names']],
+                [_w_pval(x) for x in case['elements']], ov, [[_w_pval(x) for x in w] for w in case['warm']],
+                _opt(case.get('vroot')),
+                _opt(rn, lambda r: [r['route_name'], r['rem'], _opt(r['kw'], _w_kw)])]
     if h == 'static':
         regs = _static_routes(case)
         return [0, 2, env, [[rn, _w_pattern(pat)] for _s, rn, pat, u in regs if u is None],
@@ -867,6 +969,12 @@ def run_impl(case):
         from urllib.parse import quote, quote_plus, unquote_to_bytes
         b = bytes(case['bytes'])
         return [quote(b, safe=case['safe']), quote_plus(b, safe=case['safe']), unquote_to_bytes(b).decode('latin-1')]
+    if k == 'join':
+        from urllib.parse import urljoin
+        try:
+            return [0, urljoin(case['base'], case['ref'])]
+        except ValueError:
+            return [1, 4]
     if k == 'dec':
         from urllib.parse import urlsplit, parse_qsl, unquote
         try:
@@ -906,8 +1014,21 @@ def run_impl(case):
         ob = _Res('', None)
         for nm in case['names']:
             ob = _Res(_py_pval(nm), ob)
-        u = _call(lambda: req.resource_url(ob, *els, **_ov_kwargs(ov, '')))
-        p = _call(lambda: req.resource_path(ob, *els, **_ov_kwargs(ov, '')))
+        if case.get('vroot') is not None:
+            req.environ['HTTP_X_VHM_ROOT'] = case['vroot']
+
+        def args():
+            kw = _ov_kwargs(ov, '')
+            rn = case.get('rn')
+            if rn is not None:
+                kw['route_name'] = rn['route_name']
+                if rn['rem_given']:
+                    kw['route_remainder_name'] = rn['rem']
+                if rn['kw'] is not None:
+                    kw['route_kw'] = {k: _py_kwval(v) for k, v in rn['kw']}
+            return kw
+        u = _call(lambda: req.resource_url(ob, *els, **args()))
+        p = _call(lambda: req.resource_path(ob, *els, **args()))
     elif h == 'static':
         def args():
             kw = {k: _py_kwval(v) for k, v in case['kw']}
@@ -1080,6 +1201,8 @@ def equiv(case, obs, model):
     """urlsplit also validates the text between '[' and ']' as an IP literal (ipaddress module); that check
     is not modelled: a ValueError there is accepted when the model sees a bracketed host"""
     try:
+        if case['kind'] == 'join':
+            return obs == [1, 4] and '[' in case['base'] + case['ref'] and ']' in case['base'] + case['ref']
         if case['kind'] == 'dec':
             return obs == [[1, 4], []] and model[0][0] == 0 and '[' in model[0][2] and ']' in model[0][2]
         if case['kind'] == 'gen':
@@ -1184,6 +1307,10 @@ def kinds(case, obs):
     out.append('host-' + ('none' if case['env']['http_host'] is None else 'port' if ':' in case['env']['http_host'] else 'bare'))
     if case.get('warm'):
         out.append('warm-cache')
+    if case['helper'] == 'resource':
+        out.append('vroot-' + ('none' if case.get('vroot') is None else 'given'))
+        if case.get('rn') is not None:
+            out.append('resource-route_name')
     if case['helper'] == 'static':
         regs = _static_routes(case)
         hit = [r for r in regs if case['path'].startswith(r[0])]
